@@ -66,6 +66,19 @@ def demoOps : List HostOp :=
 example : ((getCtx (hostRun extDemo World.init demoOps) 0).map fun c => c.objs) = some [⟨"vmod", ⟨false, true⟩⟩] := by decide
 example : (hostRun extDemo World.init demoOps).trustedSeen = false := by decide
 
+/-- **Scope of `object_implies_granted`, made explicit (independent audit, session 3).** The guarantee is about the context a
+constructor call is COMPILED in. `Executable::run(Context&, statements)` is a public static of the C++ class (it is how clones run a
+shared program), so a HOST can run statements compiled in a trusted context inside an untrusted one: the history below — a trusted
+context compiles `import vmod; vmod();`, an untrusted context is created, the executable is run in it — leaves an object of the
+never-granted module in the untrusted context 1, and `object_implies_granted` still holds (the object's tag says: compiled trusted).
+That is a host action with the host's own trust, outside the property ("a SCRIPT can create an object … only if … granted … before
+compilation"); for everything the C API can do no context is ever trusted and `untrusted_history_objects_granted` is unconditional. -/
+theorem trusted_compiled_code_run_in_untrusted_context_witness :
+    let ops : List HostOp := [.newCtx true, .compile 0 [.simple (.importName "vmod"), .simple (.ctor "vmod")], .newCtx false, .run 0 1]
+    ((getCtx (hostRun extDemo World.init ops) 1).map fun c => (c.trusted, c.objs)) = some (false, [⟨"vmod", ⟨true, false⟩⟩]) ∧
+    (hostRun extDemo World.init ops).proc.everGranted = [] ∧
+    (hostRun extDemo World.init ops).trustedSeen = true := by decide
+
 /-! ### refusals and the trusted case -/
 
 /-- **path_import_refused.** In an untrusted context `import "<path>";` is refused wherever it stands, and the process
